@@ -5899,7 +5899,12 @@ class SQLCompiler(Compiled):
         max_params = self.dialect.insertmanyvalues_max_parameters
         if max_params:
             total_num_of_params = len(self.bind_names)
-            num_params_per_batch = len(imv.insert_crud_params)
+            # count bound parameters, not VALUES elements: an element such
+            # as "coalesce(?, ?, ?)" holds more than one
+            num_params_per_batch = max(
+                len(imv.insert_crud_params),
+                sum(len(elem[3]) for elem in imv.insert_crud_params),
+            )
             num_params_outside_of_batch = (
                 total_num_of_params - num_params_per_batch
             )
